@@ -87,7 +87,7 @@ class _EmptyObs:
     observers = ('empty',)
 
 
-def reseat_leaves_value(db, fn, call, local_state=None):
+def reseat_leaves_value(db, fn, call, local_state=None, target_local=None):
     """abstract execution (nopsa/absx.py) of the re-seating assignment `*entry = <source>` of an entry reader, starting from an
     empty entry: returns the entry's empty() afterwards.  The source expression and the resolved operator= overload are the
     ones of this instantiation, so an entry whose value type is itself an Optional is decided on its own overload set."""
@@ -107,7 +107,18 @@ def reseat_leaves_value(db, fn, call, local_state=None):
     if ex.observe(w, 'A') != (1,):
         raise absx.Unsupported('a default-constructed entry does not report empty')
     fr = absx.Frame(fn, None)
-    fr.env[fn['params'][0]['id']] = absx.Ptr(('A',))
+    if target_local is not None:
+        fr.env[target_local] = absx.Ptr(('A',))          # the destination is reached through this local pointer
+        for prm in fn['params']:                          # parameters are the initialisers: an Optional-like one in the given state
+            t = tsrules.strip_cvref(prm.get('t', ''))
+            rr = db.records.get(t)
+            if rr is not None and rr.get('rect') == 'nop::Optional':
+                ex.make_other(w, t, local_state or 'empty')
+                fr.env[prm['id']] = absx.Loc(('B',))
+            else:
+                fr.env[prm['id']] = absx.Elem(w.fresh('arg'))
+    else:
+        fr.env[fn['params'][0]['id']] = absx.Ptr(('A',))
     # a local of the reader used as the source (decode into a local, then commit): a record local of an Optional-like
     # class is given the requested state, any other local is an opaque element value
     locals_ = {}
@@ -118,6 +129,8 @@ def reseat_leaves_value(db, fn, call, local_state=None):
                     locals_[v['id']] = v
     used = {y['id'] for y in ir.walk(call) if y.get('k') == 'ref' and y.get('dk') == 'local' and y.get('id') in locals_}
     for vid in used:
+        if vid in fr.env:
+            continue
         t = tsrules.strip_cvref(locals_[vid].get('t', ''))
         r = db.records.get(t)
         if r is not None and r.get('rect') == 'nop::Optional':
